@@ -55,6 +55,8 @@ def main():
             b = {st["mapvar"]: ct.MapType({ct.StringType("k"): b[st["names"][0]]})}
         if st.get("listvar"):
             b = {st["listvar"]: ct.ListType([b[st["names"][0]], ct.IntType(2)])}
+            if st.get("emptyvar"):
+                b[st["emptyvar"]] = ct.ListType([])
         if st.get("keep"):
             kept[st["keep"]] = b
         return b
